@@ -179,6 +179,19 @@ class OPPSerialCommunicator(BaseSerialCommunicator):
         """Mark connection as desynchronised."""
         self._lost_synch = True
 
+    def _consume_msg(self, length):
+        """Return how many bytes of part_msg belong to the message of this length at its start.
+
+        If the CRC does not match this is either a damaged message or we are not looking at the start of a message
+        at all (data bytes may look like a card address followed by a command). In both cases the real start of the
+        next message may be inside those bytes. Skip one byte only and search for the next message start.
+        """
+        if OppRs232Intf.calc_crc8_part_msg(self.part_msg, 0, length - 1) == self.part_msg[length - 1:length]:
+            return length
+
+        self._lost_synch = True
+        return 1
+
     def _parse_msg(self, msg):
         self.part_msg += msg
         strlen = len(self.part_msg)
@@ -200,8 +213,9 @@ class OPPSerialCommunicator(BaseSerialCommunicator):
                     if strlen >= 7:
                         self.platform.process_received_message(self.chain_serial, self.part_msg[:7])
                         message_found += 1
-                        self.part_msg = self.part_msg[7:]
-                        strlen -= 7
+                        consumed = self._consume_msg(7)
+                        self.part_msg = self.part_msg[consumed:]
+                        strlen -= consumed
                     else:
                         # message not complete yet
                         break
@@ -210,8 +224,9 @@ class OPPSerialCommunicator(BaseSerialCommunicator):
                     if strlen >= 11:
                         self.platform.process_received_message(self.chain_serial, self.part_msg[:11])
                         message_found += 1
-                        self.part_msg = self.part_msg[11:]
-                        strlen -= 11
+                        consumed = self._consume_msg(11)
+                        self.part_msg = self.part_msg[consumed:]
+                        strlen -= consumed
                     else:
                         # message not complete yet
                         break
